@@ -5,6 +5,8 @@ import (
 	"go/ast"
 	"go/token"
 	"go/types"
+	"sort"
+	"strings"
 
 	"verif/checker/core"
 )
@@ -362,6 +364,37 @@ func runR192(c *core.Ctx) {
 		}
 		c.Check(found && okRet, rel, fn, "ignored event returns the untouched snapshot: "+g.name, fd.Pos(), "", fmt.Sprintf("guarded return found=%v, returns the parameter without copy/write=%v", found, okRet))
 	}
+	// the enumerated ignore edges are the only ones: every return of the untouched parameter sits under one of them
+	var extra []string
+	for r, ri := range rets {
+		if len(r.Results) != 1 || core.ObjOf(inf, r.Results[0]) != watcher || ri.copied || ri.written {
+			continue
+		}
+		listed := false
+		for _, g := range guards {
+			if core.GuardedByFact(inf, par, r, g.pred, nil) {
+				listed = true
+			}
+		}
+		if !listed {
+			extra = append(extra, c.M.Position(r.Pos()))
+		}
+	}
+	sort.Strings(extra)
+	c.Check(len(extra) == 0, rel, fn, "events are ignored only for the listed reasons (cluster node, malformed, weight-less)", fd.Pos(), "",
+		"the snapshot is returned untouched at "+strings.Join(extra, ", ")+" for a reason the contract does not list: an announcement that must be applied (e.g. a re-add after a delete) is dropped")
+	// the fold step depends on (snapshot, event) only: the client receiver is not consulted
+	var recvUses []string
+	if r := recvObj(inf, fd); r != nil {
+		ast.Inspect(fd.Body, func(n ast.Node) bool {
+			if id, ok := n.(*ast.Ident); ok && inf.Uses[id] == r {
+				recvUses = append(recvUses, c.M.Position(id.Pos()))
+			}
+			return true
+		})
+	}
+	c.Check(len(recvUses) == 0, rel, fn, "the fold step reads and writes no client state besides the snapshot it was given", fd.Pos(), "",
+		"the client receiver is used at "+strings.Join(recvUses, ", ")+": the tracked set then depends on more than the fold of the history")
 	// delete edge and update edge
 	delOK, updOK := false, false
 	nWrites := 0
@@ -493,6 +526,31 @@ func runR193(c *core.Ctx) {
 	})
 	c.Check(retVar != nil && nAssign > 0 && okAssign, rel, "(*serviceUris).filterAndChooseHost", "the chosen host is an announced host that passed the filter", fc.Pos(), "",
 		"the returned host is assigned outside the iterateHostWeights callback or without the hostFilter test")
+	// 1b. nil is returned only when the selection walk chose nothing: no early return guarded by a weight sum (zero-weight
+	// hosts are still hosts: they keep their scheme's priority and are a valid answer when nothing else is eligible)
+	var early []string
+	for _, r := range core.ReturnsIn(fc.Body) {
+		if len(r.Results) == 1 && core.ObjOf(inf, r.Results[0]) == retVar && retVar != nil {
+			continue
+		}
+		onlyLen := core.GuardedByFact(inf, par, r, func(f core.Fact) bool {
+			be, ok := core.Unparen(f.Expr).(*ast.BinaryExpr)
+			if !ok || be.Op != token.EQL || !f.Val {
+				return false
+			}
+			call, ok := core.Unparen(be.X).(*ast.CallExpr)
+			if !ok {
+				return false
+			}
+			id, ok := core.Unparen(call.Fun).(*ast.Ident)
+			return ok && id.Name == "len"
+		}, nil)
+		if !onlyLen {
+			early = append(early, c.M.Position(r.Pos()))
+		}
+	}
+	c.Check(len(early) == 0, rel, "(*serviceUris).filterAndChooseHost", "no host is reported only when the selection walk found none", fc.Pos(), "",
+		"early return at "+strings.Join(early, ", ")+" that is not an emptiness test: a condition on the weight sum also fires for eligible zero-weight hosts")
 	// 2. iterateHostWeights yields keys of uri.Weights of entries of uris.uris
 	iterD := c.M.Decl(iter)
 	okIter := false
